@@ -74,12 +74,15 @@ def analyze(modname, key, timeout, ppt, twin=False, extra_pre=()):
             pre = list(conds.pre)
             post = list(conds.post)
             ln = post[0].line if post else 0
+            import inspect as _insp
+            _ns = dict(fn.__globals__)
+            _ns.update(_insp.getclosurevars(fn).nonlocals)
             for src in extra_pre:
                 # extra preconditions exclude the input class of a listed known finding
-                pre.append(condition_from_source_text(PRECONDITION, post[0].filename, ln, src, fn.__globals__))
+                pre.append(condition_from_source_text(PRECONDITION, post[0].filename, ln, src, _ns))
             if twin:
                 # reachability twin: same pre/body, post False -> must come back refuted
-                post = [condition_from_source_text(POSTCONDITION, post[0].filename, ln, "R(False)", fn.__globals__)]
+                post = [condition_from_source_text(POSTCONDITION, post[0].filename, ln, "R(False)", _ns)]
             c.conditions = _dc_replace(conds, pre=pre, post=post)
     res["extra_pre"] = list(extra_pre)
     res["twin"] = bool(twin)
